@@ -32,6 +32,7 @@ Snap == [t |-> last'.t, i |-> last'.i, a |-> last'.a, x |-> last'.x,
 GInit == Init /\ hist = <<>>
 GNext == /\ Next
          /\ ~(last'.a = "latch" /\ \E i \in 1..NQ : qs[i].pc = "qchan")
+         /\ last'.a \notin {"qrefused", "wrefused"}    \* unanswered polls are driven with the real client (waitq), not here
          /\ hist' = Append(hist, Snap)
 GSpec == GInit /\ [][GNext]_gvars
 
